@@ -483,6 +483,16 @@ def install(interp):
 
         return np.isnan(x)
 
+    def it_product(*its, repeat=1):
+        import itertools
+
+        if repeat == 1 and any(isinstance(i, SymSeq) and not i.concrete_len() for i in its):
+            from .symseq import ProductSeq
+
+            return ProductSeq([i if isinstance(i, SymSeq) else ConstSeq(tuple(interp.iterate(i))) for i in its])
+        return itertools.product(*[list(interp.iterate(i)) for i in its], repeat=repeat)
+
+    NO["itertools.product"] = it_product
     NO["numpy.isnan"] = np_isnan
     NO["functools.reduce"] = f_reduce
     NO["_functools.reduce"] = f_reduce
